@@ -1034,6 +1034,12 @@ pub fn run_c16(ctx: &RunCtx) {
     forms.push(("if-empty-body".to_string(), "if ( a ) ;".to_string()));
     forms.push(("if-else-empty-body".to_string(), "if ( a ) x = 1 ; else ;".to_string()));
     forms.push(("two-empty".to_string(), "; ;".to_string()));
+    // brace-less control flow whose body is a bare annotation line
+    forms.push(("while-annotation-body".to_string(), "while ( a ) @note a\n".to_string()));
+    forms.push(("if-annotation-body".to_string(), "if ( a ) @x\n".to_string()));
+    forms.push(("for-annotation-body".to_string(), "for int i in [ 0 : 3 ] @loop i\n".to_string()));
+    forms.push(("if-else-annotation-body".to_string(), "if ( a ) x = 1 ; else @y z\n".to_string()));
+    forms.push(("while-pragma-body".to_string(), "while ( a ) pragma p q\n".to_string()));
     forms.push(("bare-annotation".to_string(), "@note a b\n".to_string()));
     forms.push(("bare-annotation-2".to_string(), "@x\n".to_string()));
     let nf = forms.len();
